@@ -868,20 +868,20 @@ class ShiftRight(Logic):
         if (isinstance(arithmetic, Wire)):
             self.addIn('arithmetic', arithmetic)
             
-            signExtended = self.wire(f'sign_extended', w + (1<<wb))
+            signExtended = self.wire(f'sign_extended', max(w, r.getWidth()) + (1<<wb))
             SignExtend(self, f'sign_extended', last, signExtended)
             
-            zeroExtended = self.wire(f'zero_extended', w + (1<<wb))
+            zeroExtended = self.wire(f'zero_extended', max(w, r.getWidth()) + (1<<wb))
             ZeroExtend(self, f'zero_extended', last, zeroExtended)
 
-            last = self.wire(f'extended', w + (1<<wb))
+            last = self.wire(f'extended', max(w, r.getWidth()) + (1<<wb))
             
             Mux2(self, 'extended', arithmetic, zeroExtended, signExtended, last)
             w = last.getWidth()           
             
         else:
             if (arithmetic):
-                signExtended = self.wire(f'sign_extended', w + (1<<wb))
+                signExtended = self.wire(f'sign_extended', max(w, r.getWidth()) + (1<<wb))
                 SignExtend(self, f'sign_extended', last, signExtended)
                 last = signExtended
                 w = last.getWidth()
